@@ -525,6 +525,9 @@ func cliCheck(res *sched.Result, w *cliWorld) (finds []explore.Finding, outcome 
 	if closeInvoked && okCloses != 1 {
 		add("C15/close-once", "%d of %d Close calls succeeded, want exactly one; %s", okCloses, w.closeRets, w.logString())
 	}
+	if w.succRan && (len(w.succEvents) == 0 || w.succEvents[0] != "message") {
+		add("C12,C15/successor-on-the-same-connection-loses-a-response", "after Close (WithNoConnClose) a new client on the same connection started a transaction; its response was delivered to the connection, its handler saw %v (want the message first): something of the closed client still reads; %s", w.succEvents, w.logString())
+	}
 	if closeOK >= 0 {
 		cc := 0
 		for i, r := range w.log {
